@@ -183,7 +183,54 @@ def c03(tier):
             "when the override defines a key more than once, any of its definitions is accepted as the visible value"],
             "explanation": "bounded model checking of econf_mergeFiles against the clause-wise reference of DESIGN.md 5.5"}
 
-REGISTRY = {"C03": c03, "C04": c04, "C08": c08, "C09": c09}
+def dec_step(inp, inst):
+    L = int(inst.defines.get("LEN", 2)); VL = int(inst.defines.get("VL", 2)); gp = inst.defines.get("GPAT", '""').strip('"')
+    b = bytes(inp).ljust(L * (1 + VL) + 16, b"\0")
+    ents = []
+    for i in range(L):
+        o = i * (1 + VL)
+        ents.append("%s.%s=%s" % ("-AB"[int(gp[i])], "xy"[b[o] & 1], b[o + 1:o + 1 + VL].split(b"\0")[0].decode("latin1").encode("unicode_escape").decode()))
+    B0 = L * (1 + VL)
+    garg = ["NULL", '""', "A", "[A]", "B", "[B]", "S", "[S]"][b[B0 + 1] % 8]; karg = ["x", "y", "z", "NULL", '""'][b[B0 + 2] % 5]
+    nops = 7 if str(inst.defines.get("OPSET", 0)) == "0" else 14
+    return {"pre_state": ents, "tail_slots": inst.defines.get("TAIL", 0), "op": b[B0] % nops, "group_arg": garg, "key_arg": karg,
+            "new_value": b[B0 + 3:B0 + 3 + VL].split(b"\0")[0].decode("latin1").encode("unicode_escape").decode()}
+
+STEP_FUNCS = "econf_setStringValue, econf_setIntValue, econf_getStringValue, econf_getIntValue, econf_get*ValueDef, econf_getGroups, econf_getKeys, econf_getExtValue, econf_getPath, setKeyValue, find_key, new_key, key_file_append, initialize, setGroup, setKey, setGroupList, stripbrackets"
+
+def step_insts(opset, tier, vl):
+    import itertools
+    insts = []
+    maxlen = 2 if tier == "quick" else 3
+    for L in range(0, maxlen + 1):
+        for pat in itertools.product("012", repeat=L):
+            fn = next((c for c in pat if c != "0"), None)
+            if fn == "2": continue
+            gp = "".join(pat)
+            for tail in ((0, 2) if L <= 2 else (0,)):
+                for extra in ((False, True) if (L <= 1 and tail == 0) else (False,)):
+                    d = {"LEN": L, "GPAT": '"%s"' % gp, "TAIL": tail, "VL": vl, "OPSET": opset, "STRCAP": 20, "VCAP": max(L + tail + 2, 6)}
+                    if extra: d["EXTRA_SECTION"] = None
+                    insts.append(Instance("step%d-L%d-g%s-t%d%s" % (opset, L, gp or "e", tail, "-xs" if extra else ""), "s_step.c", d, unwind=21,
+                                          unwindset=lib_unwinds(L + 1, 5, alloc=L + tail + 1), timeout=900, mem_gb=6, leak_check=True, functions=STEP_FUNCS,
+                                          bounds="pre-state: %d entries, sections %s (0 group-less,1 A,2 B), keys in {x,y} symbolic, values %d symbolic bytes, %d pre-initialised tail slots%s; one operation with symbolic kind, section spelling in {NULL,'',A,[A],B,[B],S,[S]}, key in {x,y,z,NULL,''}" % (L, gp, vl, tail, ", extra key-less section S" if extra else ""),
+                                          sample_decoder=dec_step, expect_reach=["end"]))
+    return insts
+
+def c11(tier):
+    return {"instances": step_insts(0, tier, 2), "assumptions": COMMON_ASSUME + [
+        "induction: one operation from every state satisfying the representation invariant (entries, owned section list, pre-initialised tail) preserves the invariant and matches the reference map; histories of any length follow by induction (trusted step)",
+        "universe: sections {group-less,A,B,S}, keys {x,y,z}"],
+        "explanation": "inductive step of the ordered-map behaviour, decided by bounded model checking from an arbitrary valid pre-state"}
+
+def c10(tier):
+    insts = step_insts(1, tier, 3 if tier == "quick" else 4)
+    return {"instances": insts, "assumptions": COMMON_ASSUME + [
+        "one read-only call from an arbitrary valid state preserves the whole state; sequences follow by induction",
+        "econf_writeFile and econf_mergeFiles as read-only users are covered by the C07 and C03 harnesses (inputs compared with their snapshots there)"],
+        "explanation": "frame property of every read-only API call, decided by bounded model checking from an arbitrary valid state"}
+
+REGISTRY = {"C10": c10, "C11": c11, "C03": c03, "C04": c04, "C08": c08, "C09": c09}
 
 def get(prop, tier):
     if prop not in REGISTRY:
